@@ -227,6 +227,40 @@ class C01(Property):
                     observed=o['enc'][:300], required=oracle[3 * k][:300]))
             if len(res.samples) < 3 and 20 < len(txt) < 120:
                 res.samples.append({'case': case, 'impl_bytes': o['enc'][:120]})
+        # hand-written byte vectors harvested from the repo's protocol tests (frozen in spec/test_vectors.json)
+        # through the model over the PINNED table: validates table + engine model against bytes nobody computed
+        try:
+            vectors = json.loads((common.VERIF / 'spec' / 'test_vectors.json').read_text())
+            okp, _ = common.lake_build(['AioslskVerif.Driver.C01Pinned'])
+            if okp:
+                pidx = {(ps['family'], ps['dir'], ps['name']): i for i, ps in enumerate(pinned)}
+                vlines, vexp = [], []
+                for v in vectors:
+                    name = v['class'].split('.')[0]
+                    i = pidx.get((v['family'], v['dir'], name))
+                    if i is None:
+                        continue
+                    data = bytes.fromhex(v['hex'])
+                    idw = pinned[i]['id_width']
+                    if v['kind'] == 'ser':
+                        vlines.append(f'enc {i} {v["values"]}')
+                        if v['compressed']:
+                            body = zlib.decompress(data[4 + idw:])
+                            vexp.append('ok ' + wc.hexs(struct.pack('<I', idw + len(body)) + data[4:4 + idw] + body))
+                        else:
+                            vexp.append('ok ' + wc.hexs(data))
+                    else:
+                        vlines.append(f'dec {v["family"]} {v["dir"]} {wc.hexs(data)} {wc.inflate_arg(data, v["family"])}')
+                        vexp.append(f'ok {i} {v["values"]}')
+                vout = common.run_driver('AioslskVerif/Driver/C01Pinned.lean', vlines)
+                for ln, exp, got in zip(vlines, vexp, vout):
+                    res.evaluations += 1
+                    res.count('pinned-test-vectors')
+                    if exp != got:
+                        res.disagreements.append(Disagreement({'kind': 'vector', 'line': ln[:300]}, exp[:200], got[:200],
+                                                              'hand-written test vector vs. model over the pinned table'))
+        except (OSError, ValueError) as e:
+            res.notes.append(f'test vectors not run: {e}')
         # obfuscation
         ocases = []
         n_obf = (1500 if tier == 'quick' else 20000) * widen
